@@ -3,9 +3,16 @@
 # and places the working tree's std library next to the binary.
 set -e
 . "$(dirname "$0")/env.sh"
+REPO="${VERIF_REPO:-/repo}"
 cd "$VERIF_ROOT/engine"
-cp /repo/go.sum ./go.sum
-go build -o "$VERIF_ROOT/bin/vcheck" ./cmd/vcheck
+cp "$REPO/go.sum" ./go.sum
+if [ "$REPO" = /repo ]; then
+  go build -o "$VERIF_ROOT/bin/vcheck" ./cmd/vcheck
+else
+  # a repository copy elsewhere (mutant demonstrations): same engine, other replace target
+  sed "s#=> /repo#=> $REPO#" go.mod > "$VERIF_ROOT/.cache/go.alt.mod"; cp "$REPO/go.sum" "$VERIF_ROOT/.cache/go.alt.sum"
+  go build -modfile="$VERIF_ROOT/.cache/go.alt.mod" -o "$VERIF_ROOT/bin/vcheck" ./cmd/vcheck
+fi
 rm -rf "$VERIF_ROOT/bin/std"
 mkdir -p "$VERIF_ROOT/bin/std"
-cp /repo/std/*.tsh "$VERIF_ROOT/bin/std/"
+cp "$REPO"/std/*.tsh "$VERIF_ROOT/bin/std/"
